@@ -55,7 +55,7 @@ MCSameCli == {"none", "def", "override"}
 MCExtraCli == SUBSET {"cs", "o", "tp"}
 MCUseCli == {"tp", "um", "fp"}
 MCUFilesU == {"u"}
-MCEmitCli == {"goto", "refs", "unused"}
+MCEmitCli == {"goto", "refs", "unused", "rff"}
 MCLevelsChain == [l \in 0..2 |-> {"absent", "def", "override"}]
 MCSameChain == {"none", "def", "override"}
 MCExtraChain == {{}, {"pl"}, {"tp"}, {"pl", "tp"}, {"plo"}, {"plo", "tp"}}
